@@ -3529,7 +3529,7 @@ Proof.
   { intros i l. revert i. induction l as [|k l IHl]; intros i Hf; [reflexivity|].
     inversion Hf as [|? ? Hk Hl]; subst. rewrite find_all_kids_cons, app_length, map_length. cbn [flat_map].
     rewrite count_occ_app. f_equal; [exact Hk|exact (IHl (S i) Hl)]. }
-  rewrite (G 0 ks IH). destruct (str_eq_dec n nm) as [->|Hne].
+  pose proof (G 0 ks IH) as G0. unfold pos in *. rewrite G0. destruct (str_eq_dec n nm) as [->|Hne].
   - rewrite str_eqb_refl. reflexivity.
   - destruct (str_eqb n nm) eqn:E; [apply str_eqb_eq in E; contradiction|reflexivity].
 Qed.
@@ -3560,7 +3560,7 @@ Proof.
     assert (Hn1' : NoDup (names c0 ++ names t)) by (eapply Permutation_NoDup; eauto).
     unfold c0 in Hn1'. rewrite names_unfold in Hn1'. cbn [flat_map app] in Hn1'.
     inversion Hn1' as [|? ? Hnot Hn]; subst.
-    rewrite (find_all_notin nm t Hnot), En. split; [reflexivity|]. split; [exact Hn|]. split.
+    rewrite (find_all_notin nm t Hnot). split; [reflexivity|]. split; [exact Hn|]. split.
     + rewrite subtree_at_app, (subtree_upd_at _ _ _ _ Hp). destruct pt as [g n a ks]. cbn.
       rewrite nth_error_app2, Nat.sub_diag by lia. cbn. eauto.
     + now rewrite (names_along_add_kid _ _ _ _ Hp).
@@ -3575,7 +3575,7 @@ Proof.
     destruct Hin as [->|[]].
     pose proof (names_along_child parent t pt i k Hp Hk) as Hna. rewrite Hname in Hna.
     unfold path_name. rewrite Hna, str_eqb_refl.
-    split; [reflexivity|]. split; [exact Hn1|]. split; [eauto|exact Hna].
+    split; [reflexivity|]. split; [exact Hn1|]. split; [eauto|reflexivity].
 Qed.
 
 Lemma grow_step_true_names tsep t parent pt pref nm last na t1 p1 :
@@ -3614,7 +3614,7 @@ Proof.
         assert (Hi : In i (find_idx nm 0 (tkids pt))) by (rewrite F; now left).
         apply find_idx_spec in Hi as [_ (k & Hk & Hname)]. rewrite Nat.sub_0_r in Hk.
         exists k. split; [rewrite subtree_at_app, Hp; cbn; now rewrite Hk|].
-        rewrite (names_along_child parent t pt i k Hp Hk). now rewrite Hname. }
+        rewrite (names_along_child _ _ _ _ _ Hp Hk). now rewrite Hname. }
     destruct Hv as (pt1 & Hp1 & Hn1).
     destruct (IH t1 p1 pt1 _ t' p Hp1 Hn1 H) as [ex2 P2].
     exists (ex2 ++ ex1). rewrite P2, P1. now rewrite app_assoc.
@@ -3650,7 +3650,7 @@ Proof.
           assert (Hi : In i (find_idx nm 0 (tkids pt))) by (rewrite F; now left).
           apply find_idx_spec in Hi as [_ (k & Hk & Hname)]. rewrite Nat.sub_0_r in Hk.
           exists k. split; [rewrite subtree_at_app, Hp; cbn; now rewrite Hk|].
-          rewrite (names_along_child parent t pt i k Hp Hk). now rewrite Hname. }
+          rewrite (names_along_child _ _ _ _ _ Hp Hk). now rewrite Hname. }
       destruct Hv as (pt1 & Hp1 & Hna1).
       destruct (grow_true_names _ _ _ _ _ _ _ _ _ Hp1 Hna1 H) as [ex P].
       eapply Permutation_NoDup_tail; eauto. }
@@ -3674,3 +3674,625 @@ Proof.
   now rewrite (grow_true_false tsep na rest t [] t [tname t] t1 p Hn eq_refl eq_refl Hg).
 Qed.
 
+
+Lemma add_path_true_names t tsep path sep na t' p :
+  add_path_to_tree t tsep path sep true na = (t', Ret p) ->
+  exists extra, Permutation (names t') (extra ++ names t).
+Proof.
+  unfold add_path_to_tree. destruct (is_nil path); [discriminate|].
+  destruct (branch_of path sep) as [|b0 rest]; [discriminate|].
+  destruct (str_eqb b0 (tname t)) eqn:E; cbn [negb]; [|discriminate]. apply str_eqb_eq in E. subst b0.
+  destruct (grow tsep true t [] [tname t] rest na) as [t1 [p1|e]] eqn:Hg; [|discriminate].
+  intros H. inversion H; subst. rewrite names_set_attrs.
+  eapply (grow_true_names tsep na rest t [] t [tname t]); eauto.
+Qed.
+
+Lemma add_rows_true_names tsep sep : forall rows t acc t' ps,
+  add_rows t tsep sep true rows acc = (t', Ret ps) ->
+  exists extra, Permutation (names t') (extra ++ names t).
+Proof.
+  induction rows as [|[path na] rows IH]; intros t acc t' ps H; cbn [add_rows] in H.
+  - inversion H; subst. exists []. reflexivity.
+  - destruct (add_path_to_tree t tsep path sep true na) as [t1 [p|e]] eqn:Ha; [|discriminate].
+    destruct (add_path_true_names _ _ _ _ _ _ _ Ha) as [e1 P1]. destruct (IH _ _ _ _ H) as [e2 P2].
+    exists (e2 ++ e1). rewrite P2, P1. now rewrite app_assoc.
+Qed.
+
+Lemma add_rows_true_false tsep sep : forall rows t acc t' ps,
+  NoDup (names t') ->
+  add_rows t tsep sep true rows acc = (t', Ret ps) ->
+  add_rows t tsep sep false rows acc = (t', Ret ps).
+Proof.
+  induction rows as [|[path na] rows IH]; intros t acc t' ps Hn H; cbn [add_rows] in *; [exact H|].
+  destruct (add_path_to_tree t tsep path sep true na) as [t1 [p|e]] eqn:Ha; [|discriminate].
+  destruct (add_rows_true_names _ _ _ _ _ _ _ H) as [ex P].
+  rewrite (add_path_true_false _ _ _ _ _ _ _ (Permutation_NoDup_tail _ _ _ P Hn) Ha).
+  now apply IH.
+Qed.
+
+Lemma add_path_true_clean c t tsep path sep na t' p :
+  clean c t -> (forall x, In x (branch_of path sep) -> ~ In c x) ->
+  add_path_to_tree t tsep path sep true na = (t', Ret p) -> clean c t'.
+Proof.
+  intros Hc Hb H. destruct (add_path_inv _ _ _ _ _ _ _ H) as (rest & Hbr & _ & ->).
+  intros x Hx. rewrite names_set_attrs in Hx. apply ins_names_incl in Hx as [Hx|Hx]; [now apply Hc|].
+  apply Hb. rewrite Hbr. now right.
+Qed.
+
+Lemma add_rows_false_true c sep : forall rows t acc t' ps,
+  NoDup (names t) -> clean c t ->
+  (forall r, In r rows -> forall x, In x (branch_of (fst r) sep) -> ~ In c x) ->
+  add_rows t [c] sep false rows acc = (t', Ret ps) ->
+  add_rows t [c] sep true rows acc = (t', Ret ps).
+Proof.
+  induction rows as [|[path na] rows IH]; intros t acc t' ps Hn Hc Hr H; cbn [add_rows] in *; [exact H|].
+  destruct (add_path_to_tree t [c] path sep false na) as [t1 [p|e]] eqn:Ha; [|discriminate].
+  assert (Hb : forall x, In x (branch_of path sep) -> ~ In c x) by (apply (Hr (path, na)); now left).
+  pose proof (add_path_false_true c t path sep na t1 p Hn Hc Hb Ha) as Ht. rewrite Ht.
+  apply IH; auto.
+  - eapply add_path_false_names; eauto.
+  - eapply add_path_true_clean; eauto.
+  - intros r Hin. apply Hr. now right.
+Qed.
+
+(* C05_no_dup_accept_iff: with duplicate names disallowed a loop of calls is accepted exactly when
+   the permissive loop is accepted and leaves all names distinct; the results coincide.
+   Guard for the left-to-right direction only: the tree's separator is one character occurring in
+   no node name and in no path component. *)
+Theorem no_dup_accept_iff c t sep rows t' ps :
+  NoDup (names t) -> clean c t ->
+  (forall r, In r rows -> forall x, In x (branch_of (fst r) sep) -> ~ In c x) ->
+  (add_rows t [c] sep false rows [] = (t', Ret ps)
+   <-> add_rows t [c] sep true rows [] = (t', Ret ps) /\ NoDup (names t')).
+Proof.
+  intros Hn Hc Hr. split.
+  - intros H. split; [eapply add_rows_false_true; eauto|eapply add_rows_false_names; eauto].
+  - intros [H Hn']. now apply add_rows_true_false.
+Qed.
+
+(* ======================================================================================== *)
+(* 31. one verdict lemma for a loop of calls, either setting of duplicate_name_allowed          *)
+
+Lemma names_along_last : forall q t s, subtree_at t q = Some s -> last (names_along t q) [] = tname s.
+Proof.
+  induction q as [|i q IH]; intros t s H.
+  - cbn in H. inversion H; subst. reflexivity.
+  - cbn [subtree_at names_along] in *. destruct (nth_error (tkids t) i) as [k|]; [|discriminate].
+    destruct (names_along_hd k q) as [l E]. rewrite E. rewrite <- E. cbn [last].
+    rewrite E. rewrite <- E. now apply IH.
+Qed.
+
+Lemma names_last_paths t : names t = map (fun p => last p []) (paths t).
+Proof.
+  unfold names. apply positions_map_eq. intros q s Hq. symmetry. now apply names_along_last.
+Qed.
+
+Lemma dedup_NoDup_out : forall X seen, NoDup (dedup seen X).
+Proof.
+  induction X as [|x X IH]; intros seen; cbn [dedup]; [constructor|].
+  destruct (mem_path x seen) eqn:M; [apply IH|]. constructor; [|apply IH].
+  intros Hin. apply In_dedup in Hin as [_ Hn]. apply Hn. now left.
+Qed.
+
+(* the names of the permissive result are distinct iff the specification's test on the closure says so *)
+Lemma names_distinct_link c tsep b rows t' ps :
+  sib_ok b -> nonempty_names b ->
+  add_rows b tsep [c] true rows [] = (t', Ret ps) ->
+  let all := dedup [] (paths b ++ closure (map fst (sprows c rows))) in
+  NoDup (names t') <-> nodup_str (map (fun p => last p []) all) = true.
+Proof.
+  intros Hw Hne H all.
+  destruct (add_rows_accepted_ok c tsep _ _ _ _ _ Hne H) as (_ & _ & Hrows).
+  assert (Hbr : map fst (sprows c rows) = branches [c] rows).
+  { unfold sprows, branches. rewrite map_map. apply map_ext_in. intros r Hr. cbn [fst]. now apply Hrows. }
+  assert (P : Permutation (paths t') all).
+  { apply NoDup_Permutation.
+    - apply sib_ok_NoDup_paths. eapply add_rows_sib_ok; eauto.
+    - apply dedup_NoDup_out.
+    - intros x. unfold all. rewrite In_dedup_nil, in_app_iff, Hbr. eapply add_rows_paths; eauto. }
+  rewrite names_last_paths. split.
+  - intros Hn. apply nodup_str_true. eapply Permutation_NoDup; [apply Permutation_map; exact P|exact Hn].
+  - intros Hn. apply nodup_str_NoDup in Hn.
+    eapply Permutation_NoDup; [apply Permutation_map; apply Permutation_sym; exact P|exact Hn].
+Qed.
+
+Lemma contains_single_false c s : contains s [c] = false -> ~ In c s.
+Proof.
+  induction s as [|x s IH]; intros H; [intros []|]. cbn [contains] in H. rewrite startswith_single in H.
+  apply orb_false_iff in H as [H1 H2]. intros [->|Hin]; [now rewrite N.eqb_refl in H1|now apply IH].
+Qed.
+
+Lemma tname_in_names_along : forall q t s, subtree_at t q = Some s -> In (tname s) (names_along t q).
+Proof.
+  intros q t s H. rewrite <- (names_along_last q t s H).
+  destruct (names_along_hd t q) as [l E]. rewrite E. clear. revert l.
+  generalize (tname t). intros x l. revert x. induction l as [|y l IH]; intros x; [now left|].
+  cbn [last]. right. apply IH.
+Qed.
+
+(* the guard of the specification for duplicate_name_allowed = False, unpacked *)
+Definition nodup_guard (c c2 : N) (b : tree) (rows : list row) : Prop :=
+  NoDup (names b) /\
+  (forall p, In p (paths b ++ map fst (sprows c rows)) -> forall x, In x p -> ~ In c2 x).
+
+Lemma nodup_guard_clean c c2 b rows :
+  nodup_guard c c2 b rows ->
+  clean c2 b /\ (forall r, In r rows -> forall x, In x (branch_of (fst r) [c]) -> ~ In c2 x).
+Proof.
+  intros [_ Hg]. split.
+  - intros x Hx. unfold names in Hx. apply in_map_iff in Hx as (s & <- & Hs).
+    destruct (in_pre_position b s Hs) as [q Hq].
+    apply (Hg (names_along b q)); [apply in_or_app; left; apply (valid_in_paths q b s [] Hq)|].
+    now apply tname_in_names_along.
+  - intros r Hr x Hx. destruct (lstrip (fst r) [c]) as [|ch l] eqn:E.
+    + destruct (parse_empty c _ E) as [_ E2]. rewrite E2 in Hx. destruct Hx as [<-|[]]. intros [].
+    + rewrite <- (parse_agree c (fst r)) in Hx by congruence.
+      apply (Hg (spec_parse (fst r) [c])); [|exact Hx]. apply in_or_app. right.
+      unfold sprows. rewrite map_map. apply in_map_iff. exists r. auto.
+Qed.
+
+Definition acc_spec (dup : bool) (c : N) (b : tree) (rows : list row) : bool :=
+  forallb (path_ok_b (tname b)) (map fst (sprows c rows))
+  && (dup || nodup_str (map (fun p => last p [])
+                            (dedup [] (paths b ++ closure (map fst (sprows c rows)))))).
+
+Lemma loop_verdict (dup : bool) c tsep b rows :
+  sib_ok b -> nonempty_names b ->
+  (dup = true \/ exists c2, tsep = [c2] /\ nodup_guard c c2 b rows) ->
+  match add_rows b tsep [c] dup rows [] with
+  | (t', Ret ps) =>
+      acc_spec dup c b rows = true /\ add_rows b tsep [c] true rows [] = (t', Ret ps)
+      /\ (dup = true \/ NoDup (names t'))
+  | (t1, Raise e) =>
+      acc_spec dup c b rows = false /\
+      (match rows with
+       | (s0, _) :: _ => match spec_parse s0 [c] with [] => true | r :: _ => negb (str_eqb r (tname b)) end = true
+       | [] => False
+       end -> t1 = b)
+  end.
+Proof.
+  intros Hw Hne Hg.
+  assert (Hok_of_true : forall t' ps, add_rows b tsep [c] true rows [] = (t', Ret ps) ->
+            forallb (path_ok_b (tname b)) (map fst (sprows c rows)) = true).
+  { intros t' ps H. destruct (add_rows_accepted_ok c tsep _ _ _ _ _ Hne H) as (_ & _ & Hrows).
+    apply forallb_forall. intros p Hp. unfold sprows in Hp. rewrite map_map in Hp.
+    apply in_map_iff in Hp as (r & <- & Hr). now apply Hrows. }
+  assert (Htrue_of_ok : forallb (path_ok_b (tname b)) (map fst (sprows c rows)) = true ->
+            exists t' ps, add_rows b tsep [c] true rows [] = (t', Ret ps)).
+  { intros Hok. apply add_rows_ok_accepted; [exact Hw|]. intros r Hr. rewrite forallb_forall in Hok.
+    apply Hok. unfold sprows. rewrite map_map. apply in_map_iff. exists r. auto. }
+  destruct (add_rows b tsep [c] dup rows []) as [t1 [ps|e]] eqn:H.
+  - destruct dup.
+    + split; [|split; [exact H|now left]]. unfold acc_spec. rewrite (Hok_of_true _ _ H). reflexivity.
+    + destruct Hg as [Hg|(c2 & -> & Hg)]; [discriminate|].
+      destruct (nodup_guard_clean _ _ _ _ Hg) as [Hc Hr]. destruct Hg as [Hn _].
+      apply (no_dup_accept_iff c2 b [c] rows t1 ps Hn Hc Hr) in H as [Ht Hn1].
+      split; [|split; [exact Ht|now right]]. unfold acc_spec. rewrite (Hok_of_true _ _ Ht). cbn [orb andb].
+      now apply (names_distinct_link c [c2] b rows t1 ps Hw Hne Ht).
+  - split.
+    + destruct (acc_spec dup c b rows) eqn:Ea; [|reflexivity]. exfalso. unfold acc_spec in Ea.
+      apply andb_true_iff in Ea as [Hok Hd]. destruct (Htrue_of_ok Hok) as (t' & ps & Ht).
+      destruct dup; [rewrite Ht in H; discriminate|]. cbn [orb] in Hd.
+      apply (names_distinct_link c tsep b rows t' ps Hw Hne Ht) in Hd.
+      rewrite (add_rows_true_false _ _ _ _ _ _ _ Hd Ht) in H. discriminate.
+    + destruct rows as [|[s0 na0] rows']; [intros []|]. intros Hwr.
+      destruct (wrong_root_unchanged c b tsep s0 dup na0 Hne Hwr) as [e0 He0].
+      cbn [add_rows] in H. rewrite He0 in H. now inversion H.
+Qed.
+
+(* ======================================================================================== *)
+(* 32. C05_model_satisfies_prop: prop_C05 holds of the model's own output                      *)
+
+Lemma guards_nodup k i c c2 mrows :
+  guards k i = true -> i_dup i = false -> working_sep k i = [c2] -> prows k i = sprows c mrows ->
+  nodup_guard c c2 (base k i) mrows.
+Proof.
+  unfold guards. intros G Hd Hws Hpr. rewrite Hd, Hws, Hpr in G. cbn [orb] in G.
+  rewrite !andb_true_iff in G. destruct G as (_ & Hn & Hf). split.
+  - now apply nodup_str_NoDup.
+  - intros p Hp x Hx. rewrite forallb_forall in Hf. specialize (Hf p Hp). rewrite forallb_forall in Hf.
+    specialize (Hf x Hx). apply negb_true_iff in Hf. now apply contains_single_false.
+Qed.
+
+Lemma acc_spec_add k i c :
+  is_new k = false -> prows k i = sprows c (i_rows i) ->
+  forallb (path_ok k i) (map fst (prows k i)) && (i_dup i || names_distinct_after k i)
+  = acc_spec (i_dup i) c (i_tree i) (i_rows i).
+Proof.
+  intros Hnew Hpr. unfold acc_spec, names_distinct_after, all_paths, path_ok, wrong_root, base, root_name.
+  now rewrite Hnew, Hpr.
+Qed.
+
+Lemma acc_spec_new k i c r a0 mrows :
+  is_new k = true -> root_name k i = r -> prows k i = sprows c mrows ->
+  forallb (path_ok k i) (map fst (prows k i)) && (i_dup i || names_distinct_after k i)
+  = acc_spec (i_dup i) c (T None r a0 []) mrows.
+Proof.
+  intros Hnew Hr Hpr. unfold acc_spec, names_distinct_after, all_paths, path_ok, wrong_root, base.
+  now rewrite Hnew, Hr, Hpr.
+Qed.
+
+Lemma nonempty_root i k :
+  nonempty_names (i_tree i) -> is_nil (if is_new k then [] else tname (i_tree i)) = is_new k.
+Proof.
+  intros Hne. destruct (is_new k); [reflexivity|]. destruct (tname (i_tree i)) eqn:E; [|reflexivity].
+  exfalso. apply (Hne []); [|reflexivity]. rewrite <- E. apply tname_in_names.
+Qed.
+
+Theorem model_satisfies_add_path i c :
+  i_sep i = [c] -> attrs_wf (i_tree i) -> (i_dup i = true \/ exists c2, i_tsep i = [c2]) ->
+  prop_C05 KAddPath i (run KAddPath i) = true.
+Proof.
+  intros Hsep Hwf Hts. unfold prop_C05. cbn [is_byname]. unfold prop_paths.
+  destruct (guards KAddPath i) eqn:G; [cbn [negb]|reflexivity].
+  destruct (guards_facts _ _ G) as (Hk & Hnd & Hne). cbn [base is_new] in Hnd, Hne.
+  pose proof (NoDup_paths_sib_ok _ [] Hnd) as Hw.
+  pose proof (add_kind_prows KAddPath i c (fun a => eq_refl) Hsep) as Hpr.
+  assert (Hg : i_dup i = true \/ exists c2, i_tsep i = [c2] /\ nodup_guard c c2 (i_tree i) (i_rows i)).
+  { destruct (i_dup i) eqn:Hd; [now left|right]. destruct Hts as [Ht|[c2 Ht]]; [discriminate|].
+    exists c2. split; [exact Ht|]. apply (guards_nodup KAddPath i c c2 (i_rows i) G Hd Ht Hpr). }
+  pose proof (loop_verdict (i_dup i) c (i_tsep i) (i_tree i) (i_rows i) Hw Hne Hg) as V.
+  pose proof (acc_spec_add KAddPath i c eq_refl Hpr) as Hacc.
+  assert (Hroot : is_nil (root_name KAddPath i) = false).
+  { unfold root_name. cbn [is_new]. destruct (tname (i_tree i)) eqn:E; [|reflexivity].
+    exfalso. apply (Hne []); [|reflexivity]. rewrite <- E. apply tname_in_names. }
+  unfold run. rewrite Hsep. cbn [is_nil]. change (forallb (row_keys_ok []) (i_rows i)) with (keys_ok KAddPath i).
+  rewrite Hk.
+  destruct (add_rows (i_tree i) (i_tsep i) [c] (i_dup i) (i_rows i) []) as [t1 [ps|e]] eqn:H; cbn [out_add o_res o_tree o_rets].
+  - destruct V as (Va & Ht & Hdist).
+    destruct (add_kind_structure KAddPath i c _ _ _ eq_refl Hpr Hw Hwf Hne Hnd Ht) as (C1 & C2 & C3 & C4 & C5).
+    rewrite C1, C2, C3. unfold rets_ok. cbn [o_rets]. rewrite C5. cbn [andb].
+    assert (Hlast : i_dup i || nodup_str (names_of t1) = true).
+    { destruct Hdist as [->|Hn]; [reflexivity|]. change (names_of t1) with (names t1).
+      rewrite (nodup_str_true _ Hn). apply orb_true_r. }
+    rewrite Hlast, andb_true_r. rewrite Va in Hacc. unfold expected_accept, no_call.
+    destruct (i_rows i) as [|r0 rows] eqn:Er; [reflexivity|].
+    cbn [is_nil negb orb andb is_frame]. rewrite Hroot. cbn [negb andb].
+    rewrite andb_true_r. exact Hacc.
+  - destruct V as (Vr & Vsame). rewrite Vr in Hacc.
+    assert (Hrej : expected_accept KAddPath i = false).
+    { unfold expected_accept, no_call. destruct (i_rows i) as [|r0 rows] eqn:Er.
+      - cbn in H. discriminate.
+      - cbn [is_nil negb orb andb is_frame]. rewrite Hroot. cbn [negb andb]. rewrite andb_true_r. exact Hacc. }
+    rewrite Hrej. cbn [negb andb is_new].
+    destruct (refused_at_once KAddPath i) eqn:Er; [|reflexivity].
+    unfold refused_at_once in Er. cbn [is_frame andb orb] in Er. rewrite orb_false_r in Er.
+    destruct (i_rows i) as [|[s0 na0] rows] eqn:Erows.
+    + cbn in H. discriminate.
+    + cbn [is_nil orb] in Er. rewrite Hpr in Er. cbn [sprows map fst] in Er.
+      unfold wrong_root, root_name in Er. cbn [is_new] in Er.
+      rewrite (Vsame Er). now apply same_tree_refl.
+Qed.
+
+Theorem model_satisfies_add_dict i c :
+  i_sep i = [c] -> attrs_wf (i_tree i) -> (i_dup i = true \/ exists c2, i_tsep i = [c2]) ->
+  prop_C05 KAddDict i (run KAddDict i) = true.
+Proof.
+  intros Hsep Hwf Hts. unfold prop_C05. cbn [is_byname]. unfold prop_paths.
+  destruct (guards KAddDict i) eqn:G; [cbn [negb]|reflexivity].
+  destruct (guards_facts _ _ G) as (Hk & Hnd & Hne). cbn [base is_new] in Hnd, Hne.
+  pose proof (NoDup_paths_sib_ok _ [] Hnd) as Hw.
+  pose proof (add_kind_prows KAddDict i c (fun a => eq_refl) Hsep) as Hpr.
+  assert (Hg : i_dup i = true \/ exists c2, i_tsep i = [c2] /\ nodup_guard c c2 (i_tree i) (i_rows i)).
+  { destruct (i_dup i) eqn:Hd; [now left|right]. destruct Hts as [Ht|[c2 Ht]]; [discriminate|].
+    exists c2. split; [exact Ht|]. apply (guards_nodup KAddDict i c c2 (i_rows i) G Hd Ht Hpr). }
+  pose proof (loop_verdict (i_dup i) c (i_tsep i) (i_tree i) (i_rows i) Hw Hne Hg) as V.
+  pose proof (acc_spec_add KAddDict i c eq_refl Hpr) as Hacc.
+  assert (Hroot : is_nil (root_name KAddDict i) = false).
+  { unfold root_name. cbn [is_new]. destruct (tname (i_tree i)) eqn:E; [|reflexivity].
+    exfalso. apply (Hne []); [|reflexivity]. rewrite <- E. apply tname_in_names. }
+  unfold run. rewrite Hsep. cbn [is_nil]. change (forallb (row_keys_ok []) (i_rows i)) with (keys_ok KAddDict i).
+  rewrite Hk. unfold add_dict_to_tree_by_path.
+  destruct (i_rows i) as [|r0 rows] eqn:Er.
+  - cbn [out_add o_res o_tree]. unfold expected_accept, no_call, refused_at_once. rewrite Er. cbn.
+    now apply same_tree_refl.
+  - rewrite <- Er in *.
+    destruct (add_rows (i_tree i) (i_tsep i) [c] (i_dup i) (i_rows i) []) as [t1 [ps|e]] eqn:H; cbn [out_add o_res o_tree o_rets].
+    + destruct V as (Va & Ht & Hdist).
+      destruct (add_kind_structure KAddDict i c _ _ _ eq_refl Hpr Hw Hwf Hne Hnd Ht) as (C1 & C2 & C3 & C4 & C5).
+      rewrite C1, C2, C3. unfold rets_ok. cbn [o_rets list_eqb Nat.eqb andb].
+      assert (Hlast : i_dup i || nodup_str (names_of t1) = true).
+      { destruct Hdist as [->|Hn]; [reflexivity|]. change (names_of t1) with (names t1).
+        rewrite (nodup_str_true _ Hn). apply orb_true_r. }
+      rewrite Hlast, andb_true_r. rewrite Va in Hacc. unfold expected_accept, no_call. rewrite Er at 1.
+      cbn [is_nil negb orb andb is_frame]. rewrite Hroot. cbn [negb andb]. rewrite andb_true_r. exact Hacc.
+    + destruct V as (Vr & Vsame). rewrite Vr in Hacc.
+      assert (Hrej : expected_accept KAddDict i = false).
+      { unfold expected_accept, no_call. rewrite Er at 1.
+        cbn [is_nil negb orb andb is_frame]. rewrite Hroot. cbn [negb andb]. rewrite andb_true_r. exact Hacc. }
+      rewrite Hrej. cbn [negb andb is_new].
+      destruct (refused_at_once KAddDict i) eqn:Ero; [|reflexivity].
+      unfold refused_at_once in Ero. cbn [is_frame andb orb] in Ero. rewrite orb_false_r in Ero.
+      rewrite Er in Ero at 1. cbn [is_nil orb] in Ero. rewrite Hpr, Er in Ero. destruct r0 as [s0 na0].
+      cbn [sprows map fst] in Ero. unfold wrong_root, root_name in Ero. cbn [is_new] in Ero.
+      try rewrite Er in Vsame. rewrite (Vsame Ero). now apply same_tree_refl.
+Qed.
+
+Lemma add_rows_dedup_false c2 sep : forall L seen t acc1 acc2,
+  NoDup (names t) -> clean c2 t ->
+  (forall s, In s L -> forall x, In x (branch_of s sep) -> ~ In c2 x) ->
+  (forall s, In s seen -> s <> [] /\ exists q sx, subtree_at t q = Some sx /\ names_along t q = branch_of s sep) ->
+  collapse (add_rows t [c2] sep false (map (fun p => (p, [])) (dedup_str seen L)) acc1)
+  = collapse (add_rows t [c2] sep false (map (fun p => (p, [])) L) acc2).
+Proof.
+  induction L as [|x L IH]; intros seen t acc1 acc2 Hn Hc Hcl Hseen; [reflexivity|].
+  pose proof (NoDup_names_sib_ok t Hn) as Hw.
+  assert (Hcl' : forall s, In s L -> forall y, In y (branch_of s sep) -> ~ In c2 y) by (intros s Hs; apply Hcl; now right).
+  cbn [dedup_str map add_rows]. destruct (existsb (str_eqb x) seen) eqn:E.
+  - apply In_existsb_str in E. destruct (Hseen x E) as (Hx & q & sx & Hq & Hnq).
+    pose proof (add_path_existing t [c2] x sep q sx Hw Hx Hq Hnq) as Ht.
+    rewrite (add_path_true_false _ _ _ _ _ _ _ Hn Ht). now apply IH.
+  - cbn [map add_rows]. destruct (add_path_to_tree t [c2] x sep false []) as [t1 [p|e]] eqn:Ha; [|reflexivity].
+    assert (Hbx : forall y, In y (branch_of x sep) -> ~ In c2 y) by (apply Hcl; now left).
+    pose proof (add_path_false_true c2 t x sep [] t1 p Hn Hc Hbx Ha) as Ht.
+    destruct (add_path_positions _ _ _ _ _ _ _ Ht) as (Hkeep & Hnp & sp & Hsp).
+    apply IH; auto.
+    + eapply add_path_false_names; eauto.
+    + eapply add_path_true_clean; eauto.
+    + intros s [<-|Hin].
+      * split; [|eauto]. intros ->. unfold add_path_to_tree in Ha. cbn in Ha. discriminate.
+      * destruct (Hseen s Hin) as (Hne & q & sx & Hq & Hnq). split; [exact Hne|].
+        destruct (Hkeep q sx Hq) as (s' & Hs' & Hn' & _). exists q, s'. split; [exact Hs'|congruence].
+Qed.
+
+Lemma list_to_tree_full_false c2 p0 ps sep :
+  let r := hd [] (split (lstrip p0 sep) sep) in
+  ~ In c2 r ->
+  (forall s, In s (p0 :: ps) -> forall x, In x (branch_of s sep) -> ~ In c2 x) ->
+  sep = [c2] ->
+  list_to_tree (p0 :: ps) sep false
+  = if is_nil r then Raise TreeError
+    else collapse (add_rows (T None r [] []) sep sep false (map (fun p => (p, [])) (p0 :: ps)) []).
+Proof.
+  intros r Hr Hcl ->. unfold list_to_tree. fold r. destruct (is_nil r); [reflexivity|].
+  rewrite <- (add_rows_dedup_false c2 [c2] (p0 :: ps) [] (T None r [] []) [] []).
+  - unfold collapse. destruct (add_rows _ _ _ _ _ _) as [t [x|e]]; reflexivity.
+  - rewrite names_unfold. cbn. repeat constructor. intros [].
+  - intros x Hx. rewrite names_unfold in Hx. destruct Hx as [<-|[]]. exact Hr.
+  - exact Hcl.
+  - intros s [].
+Qed.
+
+Theorem model_satisfies_list i c :
+  i_sep i = [c] -> prop_C05 KList i (run KList i) = true.
+Proof.
+  intros Hsep. unfold prop_C05. cbn [is_byname]. unfold prop_paths.
+  destruct (guards KList i) eqn:G; [cbn [negb]|reflexivity].
+  unfold run. rewrite Hsep. cbn [is_nil].
+  pose proof (root_name_new KList i eq_refl) as Hrn.
+  destruct (i_rows i) as [|[p0 a0] rows] eqn:Er.
+  - cbn [map list_to_tree out_new o_res o_tree]. unfold expected_accept, no_call. rewrite Er. reflexivity.
+  - cbn [map fst]. rewrite Hsep in Hrn. cbn [fst] in Hrn.
+    destruct (root_inference c p0) as [Hri _].
+    set (r := root_name KList i) in *.
+    set (mrows := map (fun p => (p, @nil (str * val))) (p0 :: map fst rows)).
+    assert (Hpr : prows KList i = sprows c mrows).
+    { unfold prows, sprows, mrows. rewrite Er, Hsep. cbn [map fst snd spec_filter]. f_equal.
+      rewrite !map_map. reflexivity. }
+    destruct (is_nil r) eqn:En.
+    + assert (Hm : list_to_tree (p0 :: map fst rows) [c] (i_dup i) = Raise TreeError).
+      { unfold list_to_tree. rewrite Hri, <- Hrn. now rewrite En. }
+      rewrite Hm. cbn [out_new o_res o_tree]. unfold expected_accept, no_call. rewrite Er. fold r. rewrite En.
+      cbn. reflexivity.
+    + assert (Hr : r <> []) by (destruct r; [discriminate|discriminate]).
+      set (b0 := T None r [] []).
+      assert (Hw : sib_ok b0) by (constructor; constructor).
+      assert (Hne : nonempty_names b0).
+      { intros n Hn. unfold b0 in Hn. rewrite names_unfold in Hn. destruct Hn as [<-|[]]. exact Hr. }
+      assert (Hbase : base KList i = b0) by reflexivity.
+      assert (Hg : i_dup i = true \/ exists c2, [c] = [c2] /\ nodup_guard c c2 b0 mrows).
+      { destruct (i_dup i) eqn:Hd; [now left|right]. exists c. split; [reflexivity|]. rewrite <- Hbase.
+        apply (guards_nodup KList i c c mrows G Hd); [cbn [working_sep]; exact Hsep|exact Hpr]. }
+      assert (Hm : list_to_tree (p0 :: map fst rows) [c] (i_dup i)
+                   = collapse (add_rows b0 [c] [c] (i_dup i) mrows [])).
+      { destruct (i_dup i) eqn:Hd.
+        - rewrite list_to_tree_full, Hri, <- Hrn. fold r. now rewrite En.
+        - destruct Hg as [Hg|(c2 & E2 & Hg)]; [discriminate|]. inversion E2; subst c2.
+          destruct (nodup_guard_clean _ _ _ _ Hg) as [Hc Hcl].
+          rewrite (list_to_tree_full_false c p0 (map fst rows) [c]); [| | |reflexivity].
+          + rewrite Hri, <- Hrn. fold r. now rewrite En.
+          + rewrite Hri, <- Hrn. apply Hc. unfold b0. rewrite names_unfold. now left.
+          + intros s Hs x Hx. apply (Hcl (s, [])); [|exact Hx]. unfold mrows. apply in_map_iff. exists s. auto. }
+      rewrite Hm.
+      pose proof (loop_verdict (i_dup i) c [c] b0 mrows Hw Hne Hg) as V.
+      pose proof (acc_spec_new KList i c r [] mrows eq_refl eq_refl Hpr) as Hacc. fold b0 in Hacc.
+      destruct (add_rows b0 [c] [c] (i_dup i) mrows []) as [t1 [ps|e]] eqn:H; cbn [collapse out_new o_res o_tree o_rets].
+      * destruct V as (Va & Ht & Hdist).
+        destruct (new_kind_structure KList i c r [] [c] mrows t1 ps eq_refl eq_refl Hpr Hr) as (C1 & C2 & C3 & C4);
+          [constructor|intros key Hk; cbn in Hk; congruence|exact Ht|].
+        rewrite C1, C2, C3. unfold rets_ok. cbn [o_rets list_eqb Nat.eqb andb].
+        assert (Hlast : i_dup i || nodup_str (names_of t1) = true).
+        { destruct Hdist as [->|Hn]; [reflexivity|]. change (names_of t1) with (names t1).
+          rewrite (nodup_str_true _ Hn). apply orb_true_r. }
+        rewrite Hlast, andb_true_r. rewrite Va in Hacc. unfold expected_accept, no_call. rewrite Er at 1.
+        cbn [is_nil negb orb andb is_frame]. fold r. rewrite En. cbn [negb andb]. rewrite andb_true_r. exact Hacc.
+      * destruct V as (Vr & _). rewrite Vr in Hacc.
+        assert (Hrej : expected_accept KList i = false).
+        { unfold expected_accept, no_call. rewrite Er at 1. cbn [is_nil negb orb andb is_frame]. fold r.
+          rewrite En. cbn [negb andb]. rewrite andb_true_r. exact Hacc. }
+        rewrite Hrej. reflexivity.
+Qed.
+
+Lemma dict_to_tree_form_dup dup d sep k0 a0 rows :
+  d = (k0, a0) :: rows ->
+  dict_to_tree d sep dup
+  = let r := hd [] (branch_of k0 sep) in
+    let get := fun k => match dict_get d k with Some a => a | None => [] end in
+    let ra := filter_attributes (first_nonempty [get r; get (sep ++ r); get (r ++ sep); get (sep ++ r ++ sep)])
+                                [k_name] false in
+    if is_nil r then Raise TreeError
+    else collapse (add_rows (T None r (set_attrs [] ra) []) sep sep dup
+                            (map (fun r0 : str * attrs => (fst r0, filter_attributes (snd r0) [k_name] false)) d) []).
+Proof. intros ->. reflexivity. Qed.
+
+Lemma nodup_guard_root_attrs c c2 r a rows :
+  nodup_guard c c2 (T None r [] []) rows -> nodup_guard c c2 (T None r a []) rows.
+Proof. intros [H1 H2]. split; [rewrite names_unfold in *; exact H1|exact H2]. Qed.
+
+Theorem model_satisfies_dict i c :
+  i_sep i = [c] -> prop_C05 KDict i (run KDict i) = true.
+Proof.
+  intros Hsep. unfold prop_C05. cbn [is_byname]. unfold prop_paths.
+  destruct (guards KDict i) eqn:G; [cbn [negb]|reflexivity].
+  destruct (guards_facts _ _ G) as (Hk & _ & _).
+  unfold run. rewrite Hsep. cbn [is_nil].
+  change (forallb (row_keys_ok [k_name]) (i_rows i)) with (keys_ok KDict i). rewrite Hk.
+  pose proof (root_name_new KDict i eq_refl) as Hrn.
+  destruct (i_rows i) as [|[k0 a0] rows] eqn:Er.
+  - cbn [dict_to_tree out_new o_res o_tree]. unfold expected_accept, no_call. rewrite Er. reflexivity.
+  - rewrite <- Er. rewrite (dict_to_tree_form_dup _ _ _ _ _ _ Er). cbv zeta.
+    rewrite Hsep in Hrn. cbn [fst] in Hrn.
+    destruct (root_inference c k0) as [_ Hri]. rewrite Hri, <- Hrn.
+    set (r := root_name KDict i) in *.
+    set (get := fun k => match dict_get (i_rows i) k with Some a => a | None => [] end).
+    set (mrows := map (fun r0 : str * attrs => (fst r0, filter_attributes (snd r0) [k_name] false)) (i_rows i)).
+    match goal with |- context [first_nonempty ?l] => set (A := first_nonempty l) end.
+    set (ra := filter_attributes A [k_name] false).
+    destruct (is_nil r) eqn:En.
+    + cbn [out_new o_res o_tree]. unfold expected_accept, no_call. rewrite Er. fold r. rewrite En. cbn. reflexivity.
+    + assert (Hr : r <> []) by (destruct r; [discriminate|discriminate]).
+      assert (Hpr : prows KDict i = sprows c mrows).
+      { unfold prows, sprows, mrows. rewrite Hsep, map_map. apply map_ext. intros r0. cbn [fst snd].
+        now rewrite dict_filter_spec with (pcol := i_pcol i). }
+      assert (Hrc : ~ In c r).
+      { rewrite Hrn. destruct (lstrip k0 [c]) as [|ch l] eqn:El.
+        - destruct (parse_empty c k0 El) as [E1 _]. rewrite E1. intros [].
+        - rewrite (parse_agree c k0) by congruence. unfold branch_of. rewrite split_splitc.
+          pose proof (splitc_nonempty c (rstrip (lstrip k0 [c]) [c])) as Hne.
+          destruct (splitc c (rstrip (lstrip k0 [c]) [c])) as [|h t] eqn:Es; [congruence|].
+          cbn [hd]. apply (splitc_no_sep c (rstrip (lstrip k0 [c]) [c])). rewrite Es. now left. }
+      assert (Hbound : forall key, attr_get (set_attrs [] ra) key <> None -> bound [c] mrows [r] key).
+      { intros key Hkey. rewrite attr_get_set_attrs_last in Hkey.
+        destruct (attr_get (rev ra) key) eqn:Eg; [|cbn in Hkey; congruence].
+        assert (HA : A <> []) by (intros E; unfold ra in Eg; rewrite E in Eg; discriminate).
+        pose proof (first_nonempty_In _ HA) as Hin. fold A in Hin. cbn [In] in Hin.
+        assert (Hex : exists kk, branch_of kk [c] = [r] /\ get kk = A).
+        { pose proof (branch_of_word c r Hr Hrc) as Hb.
+          destruct Hin as [E|[E|[E|[E|[]]]]].
+          - exists r. auto.
+          - exists ([c] ++ r). split; [|exact E]. cbn [app]. now rewrite branch_of_leading.
+          - exists (r ++ [c]). split; [|exact E]. now rewrite branch_of_trailing.
+          - exists ([c] ++ r ++ [c]). split; [|exact E]. cbn [app]. now rewrite branch_of_leading, branch_of_trailing. }
+        destruct Hex as (kk & Hb & Hg). unfold get in Hg.
+        destruct (dict_get (i_rows i) kk) as [a|] eqn:Ed; [|congruence]. subst a.
+        exists (kk, ra). split; [|split; [exact Hb|cbn [snd]; congruence]].
+        unfold mrows. apply in_map_iff. exists (kk, A). split; [reflexivity|now apply dict_get_In]. }
+      set (b1 := T None r (set_attrs [] ra) []).
+      assert (Hw : sib_ok b1) by (constructor; constructor).
+      assert (Hne : nonempty_names b1).
+      { intros n Hn. unfold b1 in Hn. rewrite names_unfold in Hn. destruct Hn as [<-|[]]. exact Hr. }
+      assert (Hg : i_dup i = true \/ exists c2, [c] = [c2] /\ nodup_guard c c2 b1 mrows).
+      { destruct (i_dup i) eqn:Hd; [now left|right]. exists c. split; [reflexivity|].
+        apply nodup_guard_root_attrs.
+        apply (guards_nodup KDict i c c mrows G Hd); [cbn [working_sep]; exact Hsep|exact Hpr]. }
+      pose proof (loop_verdict (i_dup i) c [c] b1 mrows Hw Hne Hg) as V.
+      pose proof (acc_spec_new KDict i c r (set_attrs [] ra) mrows eq_refl eq_refl Hpr) as Hacc. fold b1 in Hacc.
+      destruct (add_rows b1 [c] [c] (i_dup i) mrows []) as [t1 [ps|e]] eqn:H;
+        cbn [collapse out_new o_res o_tree o_rets].
+      * destruct V as (Va & Ht & Hdist).
+        destruct (new_kind_structure KDict i c r (set_attrs [] ra) [c] mrows t1 ps eq_refl eq_refl Hpr Hr) as (C1 & C2 & C3 & C4);
+          [apply set_attrs_keys; constructor|exact Hbound|exact Ht|].
+        rewrite C1, C2, C3. unfold rets_ok. cbn [o_rets list_eqb Nat.eqb andb].
+        assert (Hlast : i_dup i || nodup_str (names_of t1) = true).
+        { destruct Hdist as [->|Hn]; [reflexivity|]. change (names_of t1) with (names t1).
+          rewrite (nodup_str_true _ Hn). apply orb_true_r. }
+        rewrite Hlast, andb_true_r. rewrite Va in Hacc. unfold expected_accept, no_call. rewrite Er at 1.
+        cbn [is_nil negb orb andb is_frame]. fold r. rewrite En. cbn [negb andb]. rewrite andb_true_r. exact Hacc.
+      * destruct V as (Vr & _). rewrite Vr in Hacc.
+        assert (Hrej : expected_accept KDict i = false).
+        { unfold expected_accept, no_call. rewrite Er at 1. cbn [is_nil negb orb andb is_frame]. fold r.
+          rewrite En. cbn [negb andb]. rewrite andb_true_r. exact Hacc. }
+        rewrite Hrej. reflexivity.
+Qed.
+
+(* ======================================================================================== *)
+(* 33. attribute exactness for the constructors; null dropping of the frame variants           *)
+
+Lemma attr_get_filter (f : str * val -> bool) k : forall a,
+  NoDup (map fst a) ->
+  attr_get (filter f a) k
+  = match attr_get a k with Some v => if f (k, v) then Some v else None | None => None end.
+Proof.
+  induction a as [|[k0 v0] a IH]; intros Hn; [reflexivity|]. cbn in Hn. inversion Hn as [|? ? Hk Hr]; subst.
+  cbn [filter attr_get]. destruct (str_eqb k0 k) eqn:E.
+  - apply str_eqb_eq in E. subst k0. destruct (f (k, v0)); cbn [attr_get]; [now rewrite str_eqb_refl|].
+    rewrite (IH Hr). destruct (attr_get a k) eqn:Eg; [|reflexivity]. exfalso. apply Hk.
+    clear - Eg. induction a as [|[k1 v1] a IHa]; [discriminate|]. cbn in Eg. destruct (str_eqb k1 k) eqn:E1.
+    + apply str_eqb_eq in E1. subst. now left.
+    + right. now apply IHa.
+  - destruct (f (k0, v0)); cbn [attr_get]; [rewrite E|]; now apply IH.
+Qed.
+
+(* what the frame variants hand on from one row: the non-null cells, minus "name" and the path column *)
+Lemma frame_attrs_get pcol a k :
+  NoDup (map fst a) ->
+  attr_get (frame_attrs pcol a) k
+  = if str_eqb k k_name || str_eqb k pcol then None
+    else match attr_get a k with Some VNone => None | o => o end.
+Proof.
+  intros Hn. unfold frame_attrs, filter_attributes. rewrite attr_get_filter by exact Hn.
+  destruct (attr_get a k) as [v|]; [|now destruct (str_eqb k k_name || str_eqb k pcol)].
+  cbn [fst snd existsb]. rewrite orb_false_r.
+  destruct (str_eqb k k_name || str_eqb k pcol); destruct v; cbn; reflexivity.
+Qed.
+
+(* list_to_tree: no attributes anywhere *)
+Theorem list_to_tree_attrs ps sep t' :
+  list_to_tree ps sep true = Ret t' -> forall q s', subtree_at t' q = Some s' -> tattrs s' = [].
+Proof.
+  intros H q s' Hq. destruct ps as [|p0 ps]; [discriminate|]. rewrite list_to_tree_full in H.
+  cbv zeta in H. destruct (is_nil _); [discriminate|].
+  match type of H with collapse (add_rows ?b ?ts ?sp true ?rows []) = _ =>
+    destruct (add_rows b ts sp true rows []) as [t1 [ps1|e]] eqn:Ha; [|discriminate];
+    assert (Hattr := add_rows_attrs ts sp rows b [] t1 ps1) end.
+  cbn in H. inversion H; subst t1. specialize (Hattr ltac:(constructor; constructor) Ha q s' Hq).
+  assert (E : forall rows P, (forall r, In r rows -> snd r = []) -> upd_for sep rows P [] = []).
+  { unfold upd_for. induction rows as [|r rows IH]; intros P Hr; [reflexivity|]. cbn [fold_left]. unfold step_attrs at 2.
+    pose proof (Hr r (or_introl eq_refl)) as E0. destruct r as [p a]. cbn [fst snd] in *. subst a.
+    change (set_attrs [] []) with (@nil (str * val)).
+    destruct (path_eqb _ _); apply IH; intros r' Hr'; apply Hr; now right. }
+  assert (Hb : attrs_at (T None (hd [] (split (lstrip p0 sep) sep)) [] []) q = []).
+  { unfold attrs_at. destruct q as [|j q]; [reflexivity|]. cbn. destruct j; reflexivity. }
+  rewrite Hb, E in Hattr.
+  - destruct (tattrs s') as [|[k v] l]; [reflexivity|]. specialize (Hattr k). cbn in Hattr. rewrite str_eqb_refl in Hattr. discriminate.
+  - intros r Hr. apply in_map_iff in Hr as (x & <- & _). reflexivity.
+Qed.
+
+(* dict_to_tree / frame_to_tree: the attributes of every node are the fold, in row order, of the rows
+   naming its path (dict: all attributes but "name"; frame: the non-null cells, see frame_attrs_get),
+   starting from the root's creation attributes *)
+Theorem frame_to_tree_attrs rows pcol sep t' :
+  frame_to_tree rows pcol sep true = Ret t' ->
+  exists r kw,
+    forall q s', subtree_at t' q = Some s' ->
+      aeq (tattrs s')
+          (upd_for sep (map (fun r0 => (fst r0, frame_attrs pcol (snd r0))) (strip_rows rows sep))
+                   (names_along t' q) (attrs_at (T None r (set_attrs [] kw) []) q)).
+Proof.
+  unfold frame_to_tree. destruct (strip_rows rows sep) as [|[p0 a0] rows0]; [discriminate|]. cbv zeta.
+  match goal with |- context [has_duplicate_attribute ?x] => destruct (has_duplicate_attribute x); [discriminate|] end.
+  match goal with |- context [set_attrs [] ?x] => set (kw := x) end.
+  set (r := hd [] (split p0 sep)). destruct (is_nil r); [discriminate|].
+  match goal with |- context [add_rows ?a1 ?a2 ?a3 ?a4 ?a5 ?a6] =>
+    destruct (add_rows a1 a2 a3 a4 a5 a6) as [t1 [ps1|e]] eqn:Ha; [|discriminate] end.
+  intros E. inversion E; subst t1. exists r, kw. intros q s' Hq.
+  eapply add_rows_attrs; eauto. constructor; constructor.
+Qed.
+
+Theorem dict_to_tree_attrs d sep t' :
+  dict_to_tree d sep true = Ret t' ->
+  exists r ra,
+    forall q s', subtree_at t' q = Some s' ->
+      aeq (tattrs s')
+          (upd_for sep (map (fun r0 => (fst r0, filter_attributes (snd r0) [k_name] false)) d)
+                   (names_along t' q) (attrs_at (T None r (set_attrs [] ra) []) q)).
+Proof.
+  destruct d as [|[k0 a0] rows] eqn:Ed; [discriminate|]. rewrite <- Ed.
+  rewrite (dict_to_tree_form _ _ _ _ _ Ed). cbv zeta.
+  match goal with |- context [set_attrs [] ?x] => set (ra := x) end.
+  set (r := hd [] (branch_of k0 sep)). destruct (is_nil r); [discriminate|].
+  match goal with |- context [add_rows ?a1 ?a2 ?a3 ?a4 ?a5 ?a6] =>
+    destruct (add_rows a1 a2 a3 a4 a5 a6) as [t1 [ps1|e]] eqn:Ha; [|discriminate] end.
+  cbn [collapse]. intros E. inversion E; subst t1. exists r, ra. intros q s' Hq.
+  eapply add_rows_attrs; eauto. constructor; constructor.
+Qed.
